@@ -293,6 +293,21 @@ def triangle_angles(tier, rng, rep):
                     for o in others:
                         tvs.append(p_.unit_tangent_towards(h.Point(o.copy())))
                     ang = tvs[0].angle(tvs[1])
+                    # the same angle measured two more ways: from tangent vectors given by the other vertices' own coordinates (not unit, not tangent: the class projects
+                    # and the angle must not depend on their length), and by my own Minkowski computation (independent of TangentVector.angle)
+                    if all(lab[o_] > 0 for o_ in keys):
+                        Jm = np.diag([-1.0, 1.0, 1.0])
+                        x_ = verts[k_] / np.sqrt(abs(verts[k_] @ Jm @ verts[k_])); x_ = x_ * np.sign(x_[0])
+                        raw = []
+                        for o in others:
+                            y_ = o / np.sqrt(abs(o @ Jm @ o)); y_ = y_ * np.sign(y_[0])
+                            raw.append(y_)
+                        ang_raw = h.TangentVector(h.Point(x_.copy()), (2.5 * raw[0]).copy()).angle(h.TangentVector(h.Point(x_.copy()), (0.4 * raw[1]).copy()))
+                        tv_own = [y_ + (x_ @ Jm @ y_) * x_ for y_ in raw]
+                        ang_own = np.arccos(np.clip((tv_own[0] @ Jm @ tv_own[1]) / np.sqrt((tv_own[0] @ Jm @ tv_own[0]) * (tv_own[1] @ Jm @ tv_own[1])), -1, 1))
+                        for nm_, a_ in (("tangent vectors given by the other vertices' coordinates", ang_raw), ("independent Minkowski computation", ang_own)):
+                            if not (abs(float(a_) - np.pi / lab[k_]) <= 1e-6):
+                                rep.fail("interior_angle", f"vertex {k_} ({nm_}): {float(a_)} vs pi/{lab[k_]}", inp); return False
                     # parabolic fixed points (infinite labels) are eigenvectors of defective matrices: accuracy O(sqrt(eps))
                     if not (abs(ang - np.pi / lab[k_]) <= (1e-6 if min(pqr) > 0 else 2e-4)):
                         rep.fail("interior_angle", f"vertex {k_}: {ang} vs pi/{lab[k_]}", inp); return False
